@@ -31,6 +31,7 @@ REVIEWED = [
     (r'action::bootstrap::TableBootstrapInner::run::\{closure#0\}$', r'^diverge:panicking::panic_fmt\[panic/select\]', 'select! "all branches disabled": the loop breaks on exactly that condition right before the select (premise SELECT-GUARD)'),
     # counters
     (r'.', r'^overflow:Add\([\w\.]+, 1\)$', 'usize/u64 event counter incremented by one'),
+    (r'.', r'^(Add::add|Sub::sub)\(.*, ([\w:]+::[A-Z][A-Z_0-9]+|Duration::from_(secs|millis)\(\d+\))\)$', 'Instant +/- a constant Duration (overflow needs ~10^11 years)'),
     (r'calculate_retry_duration$', r'^<impl u64>::pow\(calculate_retry_duration::BASE, Ord::min\(', '2^min(n+1, 9) <= 512'),
     (r'nodes_to_bootstrap_bucket$', r'^overflow:Sub\(bucket_number, 2\)$', 'else-branch of `bucket_number == 0 || bucket_number == 1`'),
     # validator arithmetic
